@@ -76,6 +76,7 @@ def corpus():
         "dev " + "|".join([m([b"*OPC;*ESR?;*OPC?"]), m([b"SYST:ERR:ALL?"]), "t:p-330", m([b"*TST?"]), "t:N", m([b"*TST?;*RST;*WAI;*STB?"])]),
         "dev " + "|".join([m([b"*ESE 255;*SRE 255;*ESE?;*SRE?"]), m([b"*ESE 0;*SRE 0;*ESE?;*SRE?"]), m([b"*ESE 256"]), m([b"*SRE -1"]), m([b"*ESE?;*SRE?"])]),
         "dev " + "|".join([m([b"*OPC"]), m([b"*RST"]), m([b"*ESR?"]), m([b"*ESE 1;*SRE 32;*OPC"]), m([b"*RST;*WAI"]), m([b"*STB?"]), m([b"*OPC;*OPC"]), m([b"SYST:ERR:COUN?"])]),
+        "dev " + "|".join([m([b"*IDN?;*XYZ"], mav=False), m([b"*STB?"], mav=None), m([b"SYST:ERR?"], mav=None), m([b"*CLS;*STB?"], mav=None), m([b"*SRE 16;*STB?"], mav=None), m([b"*STB?"], mav=True), m([b"*STB?"], mav=None)]),
     ] + stb_matrix()
 
 
